@@ -360,4 +360,55 @@ example : ∃ c, Coils.fromBools [true, false, true, true, false, false, true, t
       .ok (8, [0x0F, 0, 5, 0, 9, 2, 0xCD, 0x01, 0x55]) :=
   ⟨⟨[0xCD, 0x01], 9⟩, by decide +kernel, by decide +kernel⟩
 
+/-! ### the public `packed_coils_len` called directly -/
+
+/-- the PUBLIC `packed_coils_len(bitcount: usize)` called directly, for EVERY argument value: it panics
+    (checked `bitcount + 7`) exactly for the eight arguments above `usize::MAX - 7`, and otherwise
+    returns ⌈bitcount/8⌉ -/
+theorem packed_len_pub_spec (n : Nat) :
+    packedCoilsLenPub n = (if usizeLimit ≤ n + 7 then .panic else .ok ((n + 7) / 8)) ∧
+    (packedCoilsLenPub n = .panic ↔ usizeLimit ≤ n + 7) ∧
+    (∀ m, packedCoilsLenPub n = .ok m ↔ (n + 7 < usizeLimit ∧ m = (n + 7) / 8)) ∧
+    (∀ e, packedCoilsLenPub n ≠ .err e) := by
+  unfold packedCoilsLenPub packedCoilsLen
+  by_cases h : n + 7 < usizeLimit
+  · rw [if_pos h, if_neg (by omega)]
+    refine ⟨rfl, ?_, ?_, ?_⟩
+    · constructor
+      · intro h'; cases h'
+      · intro h'; omega
+    · intro m; constructor
+      · intro h'; cases h'; exact ⟨h, rfl⟩
+      · rintro ⟨_, rfl⟩; rfl
+    · intro e h'; cases h'
+  · rw [if_neg h, if_pos (by omega)]
+    refine ⟨rfl, ?_, ?_, ?_⟩
+    · exact ⟨fun _ => by omega, fun _ => rfl⟩
+    · intro m; constructor
+      · intro h'; cases h'
+      · rintro ⟨h', _⟩; exact absurd h' h
+    · intro e h'; cases h'
+
+/-- every argument a caller can obtain as the length of a slice of booleans it holds is below
+    `usize::MAX - 7` (a `[bool]` of `usize::MAX - 7` or more elements cannot exist: allocations are
+    bounded by `isize::MAX` bytes); for all of them the public function returns the packed length the
+    rest of the model uses -/
+theorem packed_len_pub_reachable (bs : List Bool) (h : bs.length < usizeLimit - 7) :
+    packedCoilsLenPub bs.length = .ok (packedCoilsLen bs.length) := by
+  unfold packedCoilsLenPub
+  rw [if_pos (by omega)]
+
+example : packedCoilsLenPub [true, false, true].length = .ok 1 :=
+  packed_len_pub_reachable [true, false, true] (by decide)
+/-- `usize::MAX - 8` -/
+example : packedCoilsLenPub 18446744073709551607 = .ok 2305843009213693951 := by decide +kernel
+/-- `usize::MAX - 7`: the largest argument that does not overflow (`bitcount + 7 = usize::MAX`), and the
+    largest length `packed_len_pub_reachable` allows -/
+example : packedCoilsLenPub 18446744073709551608 = .ok 2305843009213693951 := by decide +kernel
+/-- `usize::MAX - 6`: the smallest panicking argument -/
+example : packedCoilsLenPub 18446744073709551609 = .panic := by decide +kernel
+/-- `usize::MAX` -/
+example : packedCoilsLenPub 18446744073709551615 = .panic := by decide +kernel
+example : packedCoilsLenPub 0 = .ok 0 ∧ packedCoilsLenPub 1 = .ok 1 ∧ packedCoilsLenPub 8 = .ok 1 ∧
+    packedCoilsLenPub 9 = .ok 2 := by decide +kernel
 end Modbus.C16
